@@ -352,10 +352,13 @@ nni_id_alloc32(nni_id_map *m, uint32_t *idp, void *val)
 {
 	uint64_t id;
 	int      rv;
-	rv = nni_id_alloc(m, &id, val);
+	if ((rv = nni_id_alloc(m, &id, val)) != 0) {
+		// (id is not set when the allocation fails)
+		return (rv);
+	}
 	NNI_ASSERT(id < (1ULL << 32));
 	*idp = (uint32_t) id;
-	return (rv);
+	return (0);
 }
 
 bool
